@@ -28,6 +28,7 @@ const (
 	extQuick, extThorough       = 1200, 120000
 	r4Quick, r4Thorough         = 1500, 90000 // round 4: router+names, standalone+stateful, router+stateful (round-robin)
 	r5Quick, r5Thorough         = 1600, 60000 // round 5: router+lifecycle
+	r6Quick, r6Thorough         = 1500, 50000 // round 6: router+refused
 )
 
 func init() {
@@ -35,7 +36,7 @@ func init() {
 		ID:    "C13",
 		Level: "exploration",
 		Cases: func(tier string) int {
-			return vlib.TierN(tier, legacyQuick+extQuick+r4Quick+r5Quick, legacyThorough+extThorough+r4Thorough+r5Thorough)
+			return vlib.TierN(tier, legacyQuick+extQuick+r4Quick+r5Quick+r6Quick, legacyThorough+extThorough+r4Thorough+r5Thorough+r6Thorough)
 		},
 		Rule: "case = one PoisonQueue instance (constructor without filter, or PoisonQueueWithFilter with one of 7 predicates: all, none, errors.Is sentinel, " +
 			"its negation, errors.As type, hash of the text, not context.Canceled) with a random poison topic, 1..6 messages (random payload, 0..4 random metadata keys, " +
@@ -74,9 +75,16 @@ func init() {
 			"subscriber or topic shared with handler #0, 40% of the handlers with a pass-through handler-level middleware of their own, 25% foreign context values; 2..4+ messages, each consumed by a handler covered by the " +
 			"PoisonQueue at a drawn instant at which it runs (after its wave was started and before it is stopped; the first message by a handler of the last wave, half of the rest after the whole history), redelivered after every Nack at most " +
 			"len(attempts)-1 times, so that a message that never reaches the poison topic ends as 'nacked-instead-of-ack' / 'not-published' instead of a redelivery loop; expected names = those of the registration that consumed the message. " +
+			"Round-6 class (the last 1500 quick / 50000 thorough indices): 'router+refused' = a 'router+lifecycle' history (PoisonQueue handler-level in 70% of the cases) interleaved with 1..4 API calls that fail as documented " +
+			"(or are documented no-ops) and therefore must change nothing: 50% a duplicate AddHandler / AddNoPublisherHandler under the name of a registered handler (DuplicateHandlerNameError panic, recovered; with the registered handler's " +
+			"subscriber object / topic or other ones; 60% of them aimed at a handler that is registered with its handler-level middlewares and not started yet), 20% a second Run (\"router is already running\"), 10% RunHandlers before Run " +
+			"(\"you can't call RunHandlers on non-running router\"), 10% Handler.Stop of a handler that is not started (panic \"handler is not started\", recovered), 10% Handler.Stop once more on a handler that has stopped (its own " +
+			"handle; returns, nothing left to cancel); instants per wave: 'registered' (handlers of the wave added, before Run / RunHandlers), 'after-failed-startup-attempt' (between a Run / RunHandlers that returned a scripted start-up error " +
+			"and the next attempt; reached only when a fault fires), 'started', 'delivered', 'stopped'; from the second message on, 60% of the messages are consumed by a covered handler that a refused call named, after that call; " +
+			"a call whose precondition does not hold at its instant (the handler was restarted after a failed Run ...) is skipped and counted; every handler's PoisonQueue behaviour is judged as in 'router+lifecycle'. " +
 			"Every attempt is one evaluation of the model; a case is non-trivial when at least " +
 			"one attempt failed with an error the filter accepts (the poison publisher was due); distinct = distinct (mode, filter, registration, topology, per-attempt " +
-			"(error shape, outputs, filter verdict, publisher outcome, settlement), per-message context-injection shape, lifecycle history incl. the observed failed start-up attempts) signatures.",
+			"(error shape, outputs, filter verdict, publisher outcome, settlement), per-message context-injection shape, lifecycle history incl. the observed failed start-up attempts, refused calls (kind, instant, handler, arguments, outcome)) signatures.",
 		Assumptions: []string{
 			"messages are built with message.NewMessage (non-nil Metadata map)",
 			"stand-alone calls carry no Router context, so the topic/handler/subscriber keys are expected to be set to the empty string (the context keys are unexported and cannot be forged); " +
@@ -92,6 +100,10 @@ func init() {
 				"'If handler is added while router is already running, you need to explicitly call RunHandlers()', a handler name is free again once Stopped() of its handler is closed; the statement does not mention the history, " +
 				"so it is expected to hold unchanged for every handler covered by the PoisonQueue; handlers without a PoisonQueue (handler-level registration) receive no messages; " +
 				"a RunHandlers error without a scripted fault left, a handler that does not start / stop, or a message that is not consumed make the case inconclusive (not this property)",
+			"'router+refused': a call that the Router refuses as documented (godoc: 'handlerName must be unique', DuplicateHandlerNameError 'is sent in a panic when you try to add a second handler with the same name'; Run: 'router is already running'; " +
+				"RunHandlers: 'you can't call RunHandlers on non-running router'; Handler.Stop: panic 'handler is not started') has not happened - the statement knows no such calls, so it is expected to hold unchanged for the handler the call named and for all others; " +
+				"Handler.Stop on a handler that has stopped only cancels a context that is cancelled already (it is made through the stopped registration's own handle, also when its name was taken by a new registration); " +
+				"a call that is NOT refused (no panic / nil error / does not return) voids the drawn history: the case is inconclusive (not this property)",
 			"outputs returned together with an accepted error are not judged (the statement is silent on them)",
 			"a blocked call is decided by the quiescence detector, not by a time-out",
 		},
@@ -333,12 +345,15 @@ func run(e *vlib.Env) vlib.Result {
 	ext := e.Idx >= legacyN
 	r4 := e.Idx >= legacyN+vlib.TierN(e.Tier, extQuick, extThorough)
 	r5 := e.Idx >= legacyN+vlib.TierN(e.Tier, extQuick, extThorough)+vlib.TierN(e.Tier, r4Quick, r4Thorough)
+	r6 := e.Idx >= legacyN+vlib.TierN(e.Tier, extQuick, extThorough)+vlib.TierN(e.Tier, r4Quick, r4Thorough)+vlib.TierN(e.Tier, r5Quick, r5Thorough)
 	cfg := config{Mode: "standalone", Filter: filterKinds[r.Intn(len(filterKinds))]}
 	stateful := false
 	if !ext {
 		if e.Idx%2 == 1 {
 			cfg.Mode = "router"
 		}
+	} else if r6 {
+		cfg.Mode, cfg.Variant, cfg.CtxValues = "router", "refused", r.Chance(0.2)
 	} else if r5 {
 		cfg.Mode, cfg.Variant, cfg.CtxValues = "router", "lifecycle", r.Chance(0.25)
 	} else if r4 {
@@ -392,9 +407,12 @@ func run(e *vlib.Env) vlib.Result {
 	}
 
 	nh := 1
-	if cfg.Variant == "lifecycle" {
+	if cfg.Variant == "lifecycle" || cfg.Variant == "refused" {
 		genLifecycle(r, e.ID(), &cfg)
 		nh = len(cfg.Handlers)
+		if cfg.Variant == "refused" {
+			genRefused(r, &cfg)
+		}
 	} else if cfg.Mode == "router" {
 		nh = r.Range(1, 2)
 		cfg.Reg = []string{regRouter, regHandler}[r.Intn(2)]
@@ -478,6 +496,12 @@ func run(e *vlib.Env) vlib.Result {
 		at := 0
 		if cfg.Life != nil {
 			force, at = cfg.lifeTarget(r, i) // a handler covered by the PoisonQueue, at an instant of the history at which it runs
+			if cfg.Variant == "refused" && i >= 1 && r.Chance(0.6) {
+				// ... preferably one that a refused call names, after that call
+				if h, a, ok := cfg.refusedTarget(r); ok {
+					force, at = h, a
+				}
+			}
 		}
 		p := genMsg(r, e.ID(), i, sent, nh, force, allowOuts)
 		p.At = at
